@@ -3,6 +3,7 @@
 package main
 
 import (
+	"os"
 	"strings"
 	"fmt"
 	"math/rand/v2"
@@ -113,7 +114,7 @@ func (e *env) thingObj(t thingSpec) map[string]any {
 
 func (e *env) seedXRs() {
 	for _, n := range []string{"xr1", "xr2"} {
-		e.w.MustSeed("setup", map[string]any{"apiVersion": "ex.org/v1", "kind": "XThing", "metadata": map[string]any{"name": n}})
+		e.w.MustSeed("setup", map[string]any{"apiVersion": "ex.org/v1", "kind": "XThing", "metadata": map[string]any{"name": n, "labels": map[string]any{"crossplane.io/composite": n}}})
 	}
 	// an XR whose kind and name equal those of a resource it composes (another API group)
 	e.w.MustSeed("setup", map[string]any{"apiVersion": "platform.ex.org/v1", "kind": "Thing", "metadata": map[string]any{"name": "t3"}})
@@ -138,6 +139,10 @@ func (o op) String() string {
 		return fmt.Sprintf("%s(%s)", o.Kind, o.Usage.Name)
 	case "createThing":
 		return fmt.Sprintf("createThing(%s)", o.Thing.Name)
+	case "xrCompose":
+		return fmt.Sprintf("xrCompose(%s)", o.Name)
+	case "clearResolvedRef":
+		return fmt.Sprintf("clearResolvedRef(%s)", o.Name)
 	}
 	s := fmt.Sprintf("%s(%s@%s", o.Kind, o.Name, o.Version)
 	if o.Policy != "" {
@@ -156,8 +161,28 @@ func (e *env) do(c *sim.Client, o op) error {
 		return c.Create(bg, &unstructured.Unstructured{Object: e.usageObj(*o.Usage)})
 	case "compose":
 		return e.compose(c, *o.Usage)
+	case "xrCompose":
+		err := e.xrCompose(c, o.Name)
+		if err != nil {
+			e.mon.count("xr_compose_errors", 1)
+			if os.Getenv("DBG") != "" {
+				fmt.Fprintln(os.Stderr, "DBG xrCompose:", err)
+			}
+		} else {
+			e.mon.count("xr_compose_ok", 1)
+		}
+		return err
 	case "createThing":
 		return c.Create(bg, &unstructured.Unstructured{Object: e.thingObj(*o.Thing)})
+	case "clearResolvedRef":
+		// the user re-applies the Usage manifest as written (kubectl replace): selector only, the
+		// reference the controller had resolved is gone again
+		u := &unstructured.Unstructured{Object: e.w.GetObj(sim.Key{Group: usageGroup, Kind: "Usage", Name: o.Name})}
+		if u.Object == nil {
+			return nil
+		}
+		unstructured.RemoveNestedField(u.Object, "spec", "of", "resourceRef")
+		return c.Update(bg, u)
 	case "deleteUsage", "deleteThing":
 		u := &unstructured.Unstructured{}
 		if o.Kind == "deleteUsage" {
@@ -327,6 +352,35 @@ func scenarios() []scenario {
 		sOp(du("u1", "v1beta1", "")), sRec("u1"), sRec("u1"),
 		sOp(dt("t1", "v1", "")), sRec("u2"),
 		sOp(du("u2", "v1beta1", "")), sRec("u2"), sRec("u2"),
+		sOp(dt("t1", "v1", "")),
+	}})
+	// E4: the USED resource is composed by an XR with the real patch-and-transform composer; the XR is
+	// composed again while a Usage of the resource is Ready: what the usage controller put on the
+	// resource (the in-use label) is none of the composer's business
+	uxc := usageSpec{Name: "u1", Version: "v1beta1", Of: resSpec{Version: "v1", Sel: map[string]string{"thing-name": "tc"}}}
+	out = append(out, scenario{Name: "used-resource-composed-by-pt-xr", Things: baseThings, Steps: []step{
+		sOp(op{Kind: "xrCompose", Name: "xr1"}),
+		sOp(cu(uxc)), sRec("u1"), sRec("u1"),
+		sOp(op{Kind: "xrCompose", Name: "xr1"}),
+		sOp(dtAll("tc", "v1", "")), sRec("u1"),
+		sOp(op{Kind: "xrCompose", Name: "xr1"}),
+		sOp(dtAll("tc", "v1", "Background")),
+		sOp(du("u1", "v1beta1", "")), sRec("u1"), sRec("u1"),
+		sOp(op{Kind: "xrCompose", Name: "xr1"}),
+		sOp(dtAll("tc", "v1", "")),
+	}})
+	// E5: used resource by selector, using resource by reference; once Ready the user replaces the
+	// Usage with its original manifest (the resolved reference is gone again); the controller
+	// resolves and STORES it again, deletions stay refused
+	byRef := ref("t3", "v2")
+	usel := usageSpec{Name: "u1", Version: "v1beta1", Of: resSpec{Version: "v1", Sel: map[string]string{"thing-name": "t1"}}, By: &byRef}
+	out = append(out, scenario{Name: "resolved-reference-cleared-by-user", Things: baseThings, Steps: []step{
+		sOp(cu(usel)), sRec("u1"), sRec("u1"),
+		sOp(op{Kind: "clearResolvedRef", Name: "u1"}), sRec("u1"), sRec("u1"),
+		sOp(dt("t1", "v1", "")),
+		sOp(op{Kind: "clearResolvedRef", Name: "u1"}), sRec("u1"),
+		sOp(dt("t1", "v1", "Foreground")),
+		sOp(du("u1", "v1beta1", "")), sRec("u1"), sRec("u1"),
 		sOp(dt("t1", "v1", "")),
 	}})
 	// F: a second Usage whose using resource is given by a selector that matches nothing: it names
